@@ -287,6 +287,19 @@ func scenarios() []scenario {
 			}})
 	}
 
+	// --- a contract that destroys itself, is paid again within the same transaction and destroys itself again: every
+	// payment ends at the beneficiary (a destructed contract keeps its code until the transaction ends)
+	add(scenario{name: "destroyed-paid-destroyed-again", contracts: [][]byte{
+		call(call(call(asm(), c(1), 0, 0), c(1), 7, 0), c(1), 3, 0).Op(oSTOP).B, // driver: three calls in one transaction
+		asm().PushAddr(c(2)).Op(oSD).B,                                          // always destroys itself in favour of contract 2
+		{oSTOP},
+		call(call(asm(), c(4), 5, 0), c(4), 6, 0).Op(oSTOP).B, // the same with the caller as beneficiary
+		{oCALLER, oSD},
+	}, balances: []int64{1000, 300, 0, 1000, 40},
+		txs: func(w *txgen.World, e *env) []*txgen.TxSpec {
+			return []*txgen.TxSpec{plain(toC(0), 10, 400000, 1), plain(toC(3), 0, 400000, 1), plain(toC(0), 1, 400000, 1)}
+		}})
+
 	// --- odd recipients
 	add(scenario{name: "precompile-and-self", contracts: [][]byte{
 		call(asm(), pre1, 5, 0).Op(oSTOP).B,
